@@ -54,6 +54,13 @@ type PriorSpec struct { // state left in the out dir before the run (for resume 
 	Damage []int  `json:"damage"` // marked chunks whose bytes on disk are wrong
 	NoData bool   `json:"nodata"` // sidecar present, data file deleted
 	Short  int64  `json:"short"`  // truncate data file to this length (when > 0)
+	// the sidecar left behind is not this transfer's / not intact:
+	Garbage      bool   `json:"garbage"`       // the data file holds garbage everywhere (any skipped chunk shows)
+	ForeignChunk uint32 `json:"foreign_chunk"` // sidecar written for another chunk size
+	ForeignSize  int64  `json:"foreign_size"`  // ... another file size
+	ForeignID    string `json:"foreign_id"`    // ... another file id
+	FlipBit      int    `json:"flip_bit"`      // flip this bit of the sidecar file (0 = none, n = bit n-1)
+	TruncSidecar int    `json:"trunc_sidecar"` // truncate the sidecar file to n-1 bytes (0 = none)
 }
 
 type Case struct {
@@ -451,7 +458,17 @@ func runCase(c Case) (res Result) {
 		os.MkdirAll(filepath.Dir(dst), 0o755)
 		buf := make([]byte, spec.N)
 		scPath := transfer.SidecarPath(outTree, "", item.ID)
-		sc, err := transfer.CreateSidecar(scPath, item.ID, item.Size, chunk)
+		scID, scSize, scChunk := item.ID, item.Size, chunk
+		if pr.ForeignID != "" {
+			scID = pr.ForeignID
+		}
+		if pr.ForeignSize > 0 {
+			scSize = pr.ForeignSize
+		}
+		if pr.ForeignChunk > 0 {
+			scChunk = pr.ForeignChunk
+		}
+		sc, err := transfer.CreateSidecar(scPath, scID, scSize, scChunk)
 		if err != nil {
 			res.Note = "prior sidecar:" + err.Error()
 			return
@@ -474,6 +491,21 @@ func runCase(c Case) (res Result) {
 			}
 		}
 		sc.Flush()
+		if pr.Garbage {
+			for i := range buf {
+				buf[i] = data[i] ^ 0x5A
+			}
+		}
+		if pr.FlipBit > 0 || pr.TruncSidecar > 0 {
+			raw, _ := os.ReadFile(scPath)
+			if pr.FlipBit > 0 && (pr.FlipBit-1)/8 < len(raw) {
+				raw[(pr.FlipBit-1)/8] ^= 1 << uint((pr.FlipBit-1)%8)
+			}
+			if pr.TruncSidecar > 0 && pr.TruncSidecar-1 < len(raw) {
+				raw = raw[:pr.TruncSidecar-1]
+			}
+			os.WriteFile(scPath, raw, 0o644)
+		}
 		if !pr.NoData {
 			if pr.Short > 0 && pr.Short < int64(len(buf)) {
 				buf = buf[:pr.Short]
